@@ -724,10 +724,10 @@ func TestVerif_C04_Schedules(t *testing.T) {
 	r := kit.NewResult(t, "c04-schedules", seed, "one or two 'create child under p' requests run concurrently with one tree revocation of p (or of p's parent, or revoke-self) under the storage-operation gate: all interleavings with <=2 preemptions (bounded by a run cap), then seeded PCT schedules; after the run, if the revocation reported success every child whose creation reported success must be dead; a schedule is non-trivial when the requests actually overlapped and is distinct by its (tag,op) order hash")
 	defer r.Write(t)
 	scen := []struct {
-		name     string
-		creates  int
-		revoke   string // parent | grand | self
-		ns       string
+		name    string
+		creates int
+		revoke  string // parent | grand | self
+		ns      string
 	}{
 		{"create|revoke-parent", 1, "parent", ""},
 		{"create|revoke-grand", 1, "grand", ""},
@@ -817,8 +817,34 @@ func TestVerif_C04_Schedules(t *testing.T) {
 				default:
 					m.killTree(parent)
 				}
-				// F3 family: the create request and the tree revocation interleaved their token-store operations.
-				overlap := sched.Overlap()
+				// F3 family: the create request and the tree revocation interleaved, and the creator DID
+				// re-check its parent right before writing the child (the get of a token id record
+				// between its accessor-index put and its parent-index put) and found it live. What the
+				// unchanged code lacks is a re-check after the writes / a re-list by the revoker; a
+				// creator that does not even perform that re-check is a different defect.
+				overlap := false
+				if sched.Overlap() {
+					for ci := 0; ci < sc.creates; ci++ {
+						tag := fmt.Sprintf("c%d", ci)
+						acc, par, recheck := -1, -1, false
+						for i, st := range sched.Steps {
+							if st.Tag != tag {
+								continue
+							}
+							switch {
+							case st.Op == "put" && strings.Contains(st.Key, "sys/token/accessor/") && acc < 0:
+								acc = i
+							case st.Op == "put" && strings.Contains(st.Key, "sys/token/parent/") && par < 0:
+								par = i
+							case st.Op == "get" && strings.Contains(st.Key, "sys/token/id/") && acc >= 0 && par < 0:
+								recheck = true
+							}
+						}
+						if par >= 0 && recheck {
+							overlap = true
+						}
+					}
+				}
 				if overlap {
 					r.Count("create_overlapped_revoke", 1)
 				}
@@ -869,4 +895,3 @@ func TestVerif_C04_Schedules(t *testing.T) {
 	r.Require("overlapping_schedules", 50)
 	r.Require("both_succeeded", 10)
 }
-
